@@ -7,6 +7,7 @@
 //   id wrap   <type id> <shape> <sty> <gv>                                  ok:<type dump>|<repr dump>|same
 //   id build  <type id> <T|R> <shape> <sty> <dm>                            ok:<gv>|<dump> | err:..
 //   id rt     <type id> <cbor|json> <shape> <sty> <gv>                      ok:<gv> | ..
+//   id live   <type id> <cbor|json> <shape> <sty> <gv1> <gv2>                 ok:<reads of gv1>;<reads of the same node after *ptr = gv2>
 //   id hist   <step>;<step>;...                                              obs;obs;...
 //        step = op,type id,x|i,codec|-,T|R|-,shape,sty|-,payload
 // A history is one record and runs in a child process of its own (the inferred-schema registry is
@@ -51,6 +52,9 @@ func runLine(f []string) []string {
 	case "rt":
 		e := typeByID[f[2]]
 		return []string{f[0], "rt", f[2], f[3], shapeText(e.goType()), styText(e.schemaType()), f[6], opRt(e, f[3], f[6])}
+	case "live":
+		e := typeByID[f[2]]
+		return []string{f[0], "live", f[2], f[3], shapeText(e.goType()), styText(e.schemaType()), f[6], f[7], opLive(e, f[3], f[6], f[7])}
 	case "hist":
 		// only ever executed in a child process
 		var steps, obss []string
@@ -201,7 +205,7 @@ func main() {
 				continue
 			}
 			// drop the recorded observation so that every kind has its input arity
-			ar := map[string]int{"probe": 3, "compat": 6, "gotype": 6, "wrap": 6, "build": 7, "rt": 7, "hist": 3}[f[1]]
+			ar := map[string]int{"probe": 3, "compat": 6, "gotype": 6, "wrap": 6, "build": 7, "rt": 7, "live": 8, "hist": 3}[f[1]]
 			if ar == 0 || len(f) < ar || f[1] == "probe" {
 				continue
 			}
@@ -306,6 +310,9 @@ func generate(rng *lib.Rng, n int, tier string) [][]string {
 			g.add(g.next("r"), "rt", e.id, "cbor", "", "", gvText(v))
 			vj := g.value(e, true, true)
 			g.add(g.next("r"), "rt", e.id, "json", "", "", gvText(vj))
+			// a live node: read, change the value behind the pointer, read the same node again
+			g.add(g.next("l"), "live", e.id, "cbor", "", "", gvText(v), gvText(g.value(e, false, true)))
+			g.add(g.next("l"), "live", e.id, "json", "", "", gvText(vj), gvText(g.value(e, true, true)))
 		}
 	}
 	// histories
@@ -499,6 +506,17 @@ func corpus(g *gen) {
 	g.add("z2", "gotype", "NulBytes", "R", "", "m2 k42 b k4c a0")
 	g.add("z3", "rt", "NulBytes", "cbor", "", "", "S3 p z p z p z")
 	g.add("z4", "rt", "NulBytes", "json", "", "", "S3 z z z")
+	// a wrapped node is a live view: optional fields set / cleared behind the pointer
+	g.add("lv1", "live", "Opt", "cbor", "", "", "S3 z z z", "S3 p i1 p s62 p t")
+	g.add("lv2", "live", "Opt", "json", "", "", "S3 p i1 p s62 p t", "S3 z z z")
+	g.add("lv3", "live", "Opt", "cbor", "", "", "S3 p i1 z z", "S3 z z p f")
+	g.add("lv4", "live", "TupleOpt", "cbor", "", "", "S2 i1 z", "S2 i2 p s78")
+	g.add("lv5", "live", "TupleOpt", "json", "", "", "S2 i1 p s78", "S2 i2 z")
+	g.add("lv6", "live", "RenCycle", "cbor", "", "", "S3 z z s74", "S3 p i5 p s6e s75")
+	g.add("lv7", "live", "Outer", "cbor", "", "", "S3 S2 i1 s61 z s6e", "S3 S2 i2 s62 p S2 i3 s63 s6d")
+	g.add("lv8", "live", "MapSI", "cbor", "", "", "S2 L1 s61 G1 s61 i1", "S2 L2 s62 s61 G2 s61 i1 s62 i2")
+	g.add("lv9", "live", "UKeyed", "json", "", "", "S3 p s61 z z", "S3 z p i7 z")
+	g.add("lv10", "live", "ListS", "cbor", "", "", "S1 L3 s61 s62 s63", "S1 z")
 	// float32 rounding and overflow on assembly
 	g.add("f1", "build", "Floats", "T", "", "", "m2 k463332 d3fb999999999999a k463634 d3fb999999999999a")
 	g.add("f2", "build", "Floats", "T", "", "", "m2 k463332 d7e37e43c8800759c k463634 d0")
